@@ -60,3 +60,39 @@ Print Assumptions C01_never_raises.
 Print Assumptions C01_exactly_once_or_documented_no_answer.
 Print Assumptions C01_no_answer_means_connection_error.
 Print Assumptions C01_answer_wellformed.
+
+(* ---- translator tie: [ladder] and [request_cycle] used above are equal to
+   the definition generated from the current poorwsgi/wsgi.py
+   (Application.__request__, whole body) by harness/py2v_dispatch.py
+   (gen/DispatchGen.v is rewritten on every check run), over the primitives
+   of lib/PyDispatch.v.  Domain: Request(env, app) itself does not raise
+   ResponseError (only make_response raises it).  [observe] reads the value
+   __request__ returns the way the WSGI server does: () is an empty answer,
+   the result of response(start_response) is that emission. *)
+Require Import PW.lib.PyDispatch PW.gen.DispatchGen PW.proofs.DispatchGenEq.
+
+(* the try/except ladder, continuing with the generated rest of the method *)
+Theorem C01_generated_request_ladder_is_model :
+  forall w a f sr,
+    fconstruct f <> Some ERespErr ->
+    gen_request w a f DEnv sr
+    = let '(p, ev) := ladder (w_known w) (w_isinst w) (w_builtin w) (w_page w) a f in
+      match p with
+      | P1Resp r =>
+          let '(x, ev2) := gen_request_k1 w a f DEnv sr (DR (fmethod f)) (DV (PResp r)) in
+          (fin x, ev ++ ev2)
+      | P1NoAnswer => (Val (DV (PTuple [])), ev)
+      | P1Escaped e => (Exc e, ev)
+      end.
+Proof. exact gen_request_ladder_eq. Qed.
+Print Assumptions C01_generated_request_ladder_is_model.
+
+Theorem C01_generated_request_cycle_is_model :
+  forall w a f sr,
+    fconstruct f <> Some ERespErr ->
+    observe (fst (gen_request w a f DEnv sr))
+    = Some (fst (request_cycle (w_known w) (w_reason w) (w_isinst w) (w_builtin w) (w_page w) a f)) /\
+    snd (gen_request w a f DEnv sr)
+    = snd (request_cycle (w_known w) (w_reason w) (w_isinst w) (w_builtin w) (w_page w) a f).
+Proof. exact gen_request_eq. Qed.
+Print Assumptions C01_generated_request_cycle_is_model.
